@@ -14,13 +14,22 @@ It provides Function classes.
 import regex
 import functools
 from . import Token
+from ..errors import TokenError
 from .parenthesis import Parenthesis
 
 
 class Function(Token):
     _re = regex.compile(r'^\s*@?(?P<name>[A-Z_][\w\.]*)\(\s*', regex.IGNORECASE)
 
-    def ast(self, tokens, stack, builder, check_n=lambda *args: True):
+    def ast(self, tokens, stack, builder, check_n=lambda *args: True,
+            adjacent=True):
+        if adjacent and tokens:  # Not directly after an operand or a ')'.
+            from .operand import Operand
+            t = tokens[-1]
+            if isinstance(t, Operand) or (
+                    isinstance(t, Parenthesis) and t.has_end
+            ):
+                raise TokenError()
         super(Function, self).ast(tokens, stack, builder)
         stack.append(self)
         t = Parenthesis('(')
@@ -52,6 +61,8 @@ class Array(Function):
             token.ast(tokens, stack, builder)
             if self.has_sep:
                 check_n = functools.partial(_check_tkn_n_args, token.get_n_args)
-                Function('ARRAY(').ast(tokens, stack, builder, check_n=check_n)
+                Function('ARRAY(').ast(
+                    tokens, stack, builder, check_n=check_n, adjacent=False
+                )
             else:
                 Parenthesis(')').ast(tokens, stack, builder)
